@@ -9,6 +9,9 @@ pub struct C06 {
     pub inj: Vec<(Vec<usize>, Vec<usize>, usize)>,
     /// (q table, q codomain) surjective, with every f: B -> 3
     pub surj: Vec<(Vec<usize>, usize)>,
+    /// universal family: longest f table, and 3^that
+    pub fmax: usize,
+    pub nfu: u64,
     pub families: Vec<(&'static str, u64)>,
 }
 
@@ -28,11 +31,9 @@ impl C06 {
     pub fn new(quick: bool) -> C06 {
         let mut funs = vec![];
         let bmax = if quick { 4 } else { 5 };
+        let amax = if quick { 4usize } else { 6 };
         for b in 0..=bmax {
-            for a in 0..=4usize {
-                if b == 5 && a > 3 {
-                    continue;
-                }
+            for a in 0..=amax {
                 for t in ohmc_core::uni::tables(a, b) {
                     funs.push((t, b));
                 }
@@ -52,14 +53,14 @@ impl C06 {
             }
         }
         let mut inj = vec![];
-        for n in 0..=3usize {
+        for n in 0..=(if quick { 3usize } else { 4 }) {
             for sizes in ohmc_core::uni::tables(n, 4) {
-                for dn in 0..=4usize {
+                for dn in 0..=5usize {
                     // declared codomain of the index map: n (well typed) and the neighbours (ill typed)
                     if dn + 1 < n || dn > n + 1 {
                         continue;
                     }
-                    for alen in 0..=3usize {
+                    for alen in 0..=(if quick { 3usize } else { 4 }) {
                         for am in ohmc_core::uni::tables(alen, dn) {
                             inj.push((sizes.clone(), am, dn));
                         }
@@ -68,8 +69,9 @@ impl C06 {
             }
         }
         let mut surj = vec![];
-        for qn in 0..=4usize {
-            for bn in 0..=4usize {
+        let smax = if quick { 4usize } else { 5 };
+        for qn in 0..=smax {
+            for bn in 0..=smax {
                 for t in ohmc_core::uni::tables(bn, qn) {
                     if (0..qn).all(|c| t.contains(&c)) {
                         surj.push((t, qn));
@@ -78,13 +80,17 @@ impl C06 {
             }
         }
         let nf = funs.len() as u64;
+        let fmax = if quick { 4usize } else { 6 };
+        let nfu = 3u64.pow(fmax as u32);
+        // parallel pairs (f, g) of equal length: index by (f, offset within the same-length block)
+        let np6: u64 = (1..=6u32).map(|a| 6u64.pow(a) * 6u64.pow(a)).sum::<u64>() * if quick { 0 } else { 1 };
         let families: Vec<(&'static str, u64)> = vec![
             ("new", raw.len() as u64 * 6),
             ("constructors", 5 * 5 * 4),
             ("unary", nf * 4),
             ("pairs", nf * nf),
             ("injections", inj.len() as u64),
-            ("universal", surj.len() as u64 * 81 * 3),
+            ("universal", surj.len() as u64 * nfu * 3),
             ("semifinite", nf * 6),
             ("coequalizer_structured", 0), // filled in below
             ("wide_codomains", 3 * LARGE.len() as u64 * 40),
@@ -92,7 +98,10 @@ impl C06 {
         let mut families = families;
         let ng = structured_graphs().len() as u64 + (LARGE.len() * 6) as u64;
         families[7].1 = ng;
-        C06 { funs, raw, inj, surj, families }
+        if !quick {
+            families.push(("coequalizer_into_six", np6));
+        }
+        C06 { funs, raw, inj, surj, fmax, nfu, families }
     }
 
     pub fn run(&self, fam: &str, i: u64, loc: &mut ohmc_core::explore::Local) {
@@ -261,8 +270,8 @@ impl C06 {
                 }
             }
             "universal" => {
-                let (q, qn) = &self.surj[(i / 243) as usize];
-                let fi = (i / 3) % 81;
+                let (q, qn) = &self.surj[(i / (3 * self.nfu)) as usize];
+                let fi = (i / 3) % self.nfu;
                 let mode = i % 3; // 0: right length, 1: one shorter, 2: one longer
                 let bn = q.len();
                 let flen = match mode {
@@ -275,7 +284,7 @@ impl C06 {
                     }
                     _ => bn + 1,
                 };
-                if flen > 4 {
+                if flen > self.fmax {
                     return Ok(false);
                 }
                 // f = the fi-th table of length flen over 3 values (only the first 3^flen are distinct)
@@ -373,6 +382,35 @@ impl C06 {
                 let back2: Result<SF<String>, ()> = SF::<String>::try_from(af);
                 ensure(back2.is_err(), || "TryFrom of a finite arrow must fail".into())?;
                 Ok(exp.is_some())
+            }
+            "coequalizer_into_six" => {
+                // every pair of parallel maps a -> 6, a = 1..6 (thorough tier)
+                let mut r = i;
+                let mut a = 1u32;
+                loop {
+                    let blk = 6u64.pow(a) * 6u64.pow(a);
+                    if r < blk {
+                        break;
+                    }
+                    r -= blk;
+                    a += 1;
+                }
+                let m = 6u64.pow(a);
+                let unrank = |mut x: u64| -> Vec<usize> {
+                    let mut t = vec![];
+                    for _ in 0..a {
+                        t.push((x % 6) as usize);
+                        x /= 6;
+                    }
+                    t
+                };
+                let (f, g) = (unrank(r / m), unrank(r % m));
+                let q = ff(&f, 6).coequalizer(&ff(&g, 6)).ok_or("coequalizer of parallel maps is None")?;
+                let pairs: Vec<(usize, usize)> = f.iter().cloned().zip(g.iter().cloned()).collect();
+                let (rq, rk) = classes(6, &pairs);
+                ensure(q.table.0.len() == 6 && is_dense_surjection(&q.table.0, q.target), || format!("coequalizer {} of {:?},{:?} -> 6 is not a dense surjection", show(&q), f, g))?;
+                ensure(q.target == rk && same_partition(&q.table.0, &rq), || format!("coequalizer {} of {:?},{:?} -> 6 has the wrong kernel (reference classes {:?})", show(&q), f, g, rq))?;
+                Ok(rk < 6)
             }
             "coequalizer_structured" => {
                 // parallel maps f, g : E -> n read off structured / large sparse edge lists (deep union-find trees,
